@@ -54,7 +54,7 @@ def incell_cases(ctx, rng, tier):
     """polygons lying entirely inside one cell, off-centre (a slab between two adjacent centre-to-vertex rays), at all
     latitudes including near the poles, and thin east-west / north-south strips inside a cell"""
     out = []
-    n = 14 if tier == "quick" else 150
+    n = 20 if tier == "quick" else 200
     pts = []
     for k in range(n):
         lat = rng.choice([rng.uniform(-1.45, -0.9), rng.uniform(-0.9, 0.9), rng.uniform(0.9, 1.45)])
@@ -73,7 +73,18 @@ def incell_cases(ctx, rng, tier):
         res = (h >> 52) & 15
         j = rng.randrange(len(bd))
         v0, v1 = bd[j], bd[(j + 1) % len(bd)]
-        mode = rng.randrange(3)
+        mode = rng.randrange(4)
+        if mode == 3:      # a polygon around the cell with a small hole that contains the cell centre (and lies in the cell)
+            dlat = max(abs(la - c[0]) for la, _ in bd)
+            dlng = max(abs(ln - c[1]) for _, ln in bd)
+            outer = [(c[0] - 2.5 * dlat, c[1] - 2.5 * dlng), (c[0] - 2.5 * dlat, c[1] + 2.5 * dlng),
+                     (c[0] + 2.5 * dlat, c[1] + 2.5 * dlng), (c[0] + 2.5 * dlat, c[1] - 2.5 * dlng)]
+            hole = [(c[0] - 0.2 * dlat, c[1] - 0.2 * dlng), (c[0] - 0.2 * dlat, c[1] + 0.25 * dlng),
+                    (c[0] + 0.25 * dlat, c[1] + 0.2 * dlng), (c[0] + 0.2 * dlat, c[1] - 0.2 * dlng)]
+            if max(abs(p_[0]) for p_ in outer) < 1.5:
+                loops = [[(la, gen.norm_lng(ln)) for la, ln in lp] for lp in (outer, hole)]
+                out.append((loops, c[0], gen.norm_lng(c[1]), 3 * EDGE[res], res, "hole-in-cell"))
+            continue
         if mode == 0:      # slab between two adjacent rays
             t0, t1 = rng.uniform(0.1, 0.3), rng.uniform(0.6, 0.85)
             quad = [(c[0] + t * (v[0] - c[0]), c[1] + t * (v[1] - c[1])) for v, t in ((v0, t0), (v0, t1), (v1, t1), (v1, t0))]
@@ -171,7 +182,11 @@ def evaluate(ctx, rng, tier, focus, budget, broken):
             bdist = pu.loops_min_dist(bd, floops)
             poly_v_in_cell = any(pu.pt_in_loop(p, bd) for lp in floops for p in lp)
             pvd = min(pu.dist_pt_loops(p, [bd]) for lp in floops for p in lp)
-            amb = min(vd + [cd, pvd]) < EPS or (0 < bdist < EPS)
+            # the oracle treats cell edges as straight segments in lat/lng space (as the library's crossing test
+            # does) while a polygon vertex is assigned to a cell on the sphere (latLngToCell): the two differ by up to
+            # ~ L^2 tan(lat) / 8 for an edge of length L, which matters for coarse cells at high latitude
+            curv = max(EPS, 0.25 * EDGE[res] ** 2 * max(1.0, abs(math.tan(c[0]))))
+            amb = min(vd + [cd, pvd]) < curv or (0 < bdist < curv)
             if amb:
                 continue
             all_in = all(vin) and cin
